@@ -532,10 +532,17 @@ pub fn n_workers() -> usize {
 pub fn parallel(out: &mut Out, f: impl Fn(usize, usize, &mut Out) + Sync) {
     let n = n_workers();
     let mut outs: Vec<Out> = (0..n).map(|_| out.child()).collect();
+    // the workers poll futures by hand; code under test may still create tokio timers or sockets, which need a runtime CONTEXT
+    // (not an executor): without it a decoder that merely arms a timeout would panic here and nowhere else
+    let handle = tokio::runtime::Handle::try_current().ok();
     std::thread::scope(|s| {
         for (i, o) in outs.iter_mut().enumerate() {
             let f = &f;
-            s.spawn(move || f(i, n, o));
+            let handle = handle.clone();
+            s.spawn(move || {
+                let _ctx = handle.as_ref().map(|h| h.enter());
+                f(i, n, o)
+            });
         }
     });
     for o in outs {
